@@ -127,7 +127,7 @@ def corpus():
         c = g.malformed(k)
         c["cls"] = "SQLLiteQuery" if k != 4 else "Query"
         out.append(c)
-    return _corpus_files() + out + mr.triples() + mr.fork_witnesses() + mr.corr_witnesses() + mr.insert_select_orders() + mr.nested_subquery_values()
+    return _corpus_files() + out + mr.triples() + mr.fork_witnesses() + mr.corr_witnesses() + mr.insert_select_orders() + mr.nested_subquery_values() + mr.starter_spellings() + mr.retargeted()
 
 
 def gen_cases(rng, tier):
